@@ -484,3 +484,61 @@ def dependence_slice(fn, block, extra_operands=(), maxdepth=40):
                 if S not in seen_blocks:
                     bwork.append(S)
     return fields, callees
+
+
+def reach_with_oracle(fn, oracle, start=0):
+    """Blocks reachable from `start` when some run-time facts are fixed. `oracle(kind, payload)` is asked for
+    ("field", place) on `x = copy place.field` and for ("call", terminator) on calls; it returns 0 / 1 for a boolean it
+    fixes, None otherwise. Bool locals assigned constants, copies and negations of known bools are tracked (the shape
+    `a || b`, `!x`, `matches!` compile to); switches on known bools follow one edge, everything else follows all edges."""
+    seen_states, seen = set(), set()
+    st = [(start, frozenset())]
+    while st:
+        b, env = st.pop()
+        if (b, env) in seen_states:
+            continue
+        seen_states.add((b, env))
+        seen.add(b)
+        envd = dict(env)
+        for stm in fn.stmts(b):
+            if stm["k"] != "assign" or proj(stm["p"]):
+                continue
+            l = stm["p"]["l"]
+            rv = stm["rv"]
+            envd.pop(l, None)
+            if rv["k"] == "use":
+                a = rv["a"]
+                if is_const(a) and a["c"].get("ty") == "bool" and a["c"].get("v") in (0, 1):
+                    envd[l] = a["c"]["v"]
+                elif is_place(a) and not proj(a) and a["l"] in envd:
+                    envd[l] = envd[a["l"]]
+                elif is_place(a) and proj(a):
+                    v = oracle("field", a)
+                    if v is not None:
+                        envd[l] = v
+            elif rv["k"] == "un" and rv["op"] == "Not" and is_place(rv["a"]) and not proj(rv["a"]) and rv["a"]["l"] in envd:
+                envd[l] = 1 - envd[rv["a"]["l"]]
+        t = fn.term(b)
+        succs = [s_ for s_ in fn.succs(b) if not fn.is_cleanup(s_)]
+        if t["k"] == "call" and not proj(t["dest"]):
+            envd.pop(t["dest"]["l"], None)
+            v = oracle("call", t)
+            if v is not None:
+                envd[t["dest"]["l"]] = v
+        elif t["k"] == "switch" and t.get("dty") == "bool":
+            d = t["d"]
+            v = None
+            if is_place(d) and not proj(d):
+                v = envd.get(d["l"])
+            elif is_place(d):
+                v = oracle("field", d)
+            if v is not None:
+                tgt = None
+                for val, tb in t["ts"]:
+                    if val == v:
+                        tgt = tb
+                succs = [tgt if tgt is not None else t["o"]]
+        nenv = frozenset(envd.items())
+        for s_ in succs:
+            st.append((s_, nenv))
+    return seen
